@@ -1434,10 +1434,11 @@ Example ex_reset_hyps :
     lookup (t_tree t) ["a"; "b"] <> None /\ lookup (t_tree t) ["a"; "c"] <> None /\
     md_get_bool (t_meta t) md_sync = Some true /\ md_get_int (t_meta t) md_leaf_count = Some 2.
 Proof.
-  assert (Ha : assoc "t" (c_targets ex_c) = Some ex_t) by (vm_compute; reflexivity).
+  assert (Ha : assoc "t" (c_targets (crun (new_cache ex_cfg ["t"; "u"]) ex_ops)) = Some ex_t)
+    by (vm_compute; reflexivity).
   destruct (reachable_target ex_cfg ["t"; "u"] ex_ops "t" ex_t Ha) as (Hwf & Hnm & _).
   exists ex_t, (fst (fst ex_reset)), (snd (fst ex_reset)).
-  split; [exact Ha|]. split; [exact Hwf|]. split; [rewrite Hnm; discriminate|].
+  split; [unfold ex_c; exact Ha|]. split; [exact Hwf|]. split; [rewrite Hnm; discriminate|].
   split; [apply calm_b_sound; [exact Hwf|vm_compute; reflexivity]|].
   split; [vm_compute; reflexivity|].
   vm_compute. repeat split; discriminate.
